@@ -560,20 +560,20 @@ open KG.Spec.Gateway
 theorem acquire_demand {w : Model.LocalLimiter.World} {σ : KG.Spec.LocalLimiter.SState} (h : KG.Lemmas.LocalLimiter.Rel w σ)
     {c n : Str} {tb : Bool} {w' : Model.LocalLimiter.World} {b : Bool}
     (ha : Model.LocalLimiter.acquire w c n tb = .ok (w', b)) :
-    b = (match KG.Spec.LocalLimiter.demand σ c n with | some d => d | none => tb) := by
+    b = (match KG.Spec.LocalLimiter.demandExact σ c n with | some d => d | none => tb) := by
   obtain ⟨w'', b'', ha', hchk, _⟩ := KG.Lemmas.LocalLimiter.acquire_step h c n tb
   rw [ha] at ha'
   injection ha' with ha'
   injection ha' with _ hb
   subst hb
-  cases hd : KG.Spec.LocalLimiter.demand σ c n with
+  cases hd : KG.Spec.LocalLimiter.demandExact σ c n with
   | some d =>
-    simp only [KG.Spec.LocalLimiter.check, hd] at hchk
+    simp only [KG.Spec.LocalLimiter.checkExact, hd] at hchk
     simpa using hchk
   | none =>
     simp only
     have hc := h.core
-    unfold KG.Spec.LocalLimiter.demand at hd
+    unfold KG.Spec.LocalLimiter.demandExact at hd
     by_cases hn : n = []
     · simp [hn] at hd
     · simp only [hn, if_false] at hd
